@@ -29,6 +29,6 @@ def scenarios(ctx):
         dict(name="guaranteed-across-outages", n=4 if q else 24, nticks=1100 if q else 3000, heal_after=800 if q else 2400,
              policy=dict(p_send=0.08, p_loss=0.03, p_outage=0.004, outage_len=(90, 210), retries=(-1, -1, 0), lens=[0, 1, 100, 1433, 1434, 1435, 3000]), world=dict(start_seq="alt")),
         # a lost guaranteed message whose retransmission arrives behind a burst of more than 256 newer messages (the width of the message window)
-        dict(name="guaranteed-under-bursts", n=4 if q else 30, nticks=900 if q else 2500, heal_after=600 if q else 2000,
+        dict(name="guaranteed-under-bursts", n=4 if q else 10, nticks=900 if q else 1500, heal_after=600 if q else 1100,
              policy=dict(p_send=0.15, p_loss=0.2, retries=(-1,), lens=[4, 20, 600, 1500], burst=0.03, burst_lens=(4, 4, 5), burst_retries=(0,), maxdelay=4), world=dict(start_seq="alt")),
     ]
